@@ -93,29 +93,44 @@ pub fn c14_str_eq(kind: Kind, t: &[u8], u: &str) -> Guard<Vec<(&'static str, boo
 				let r = Ri::new(s).ok().unwrap();
 				let o = RiBuf::new(own(t.to_vec()).unwrap()).ok().unwrap();
 				v.push(("Ri==str", *r == *u));
+				v.push(("Ri==str (through !=)", !(*r != *u)));
 				v.push(("Ri==&str", *r == u));
+				v.push(("Ri==&str (through !=)", !(*r != u)));
 				v.push(("Ri==String", *r == us));
+				v.push(("Ri==String (through !=)", !(*r != us)));
 				v.push(("RiBuf==str", o == *u));
+				v.push(("RiBuf==str (through !=)", !(o != *u)));
 				v.push(("RiBuf==&str", o == u));
+				v.push(("RiBuf==&str (through !=)", !(o != u)));
 				v.push(("RiBuf==String", o == us));
+				v.push(("RiBuf==String (through !=)", !(o != us)));
 				v.extend(extra_str_eq(kind, t, u));
 			}
 			Kind::RiRef => {
 				let r = RiRef::new(s).ok().unwrap();
 				let o = RiRefBuf::new(own(t.to_vec()).unwrap()).ok().unwrap();
 				v.push(("RiRef==str", *r == *u));
+				v.push(("RiRef==str (through !=)", !(*r != *u)));
 				v.push(("RiRef==&str", *r == u));
+				v.push(("RiRef==&str (through !=)", !(*r != u)));
 				v.push(("RiRef==String", *r == us));
+				v.push(("RiRef==String (through !=)", !(*r != us)));
 				v.push(("RiRefBuf==str", o == *u));
+				v.push(("RiRefBuf==str (through !=)", !(o != *u)));
 				v.push(("RiRefBuf==&str", o == u));
+				v.push(("RiRefBuf==&str (through !=)", !(o != u)));
 				v.push(("RiRefBuf==String", o == us));
+				v.push(("RiRefBuf==String (through !=)", !(o != us)));
 				v.extend(extra_str_eq(kind, t, u));
 			}
 			Kind::Path => {
 				let r = Path::new(s).ok().unwrap();
 				v.push(("Path==str", *r == *u));
+				v.push(("Path==str (through !=)", !(*r != *u)));
 				v.push(("Path==&str", *r == u));
+				v.push(("Path==&str (through !=)", !(*r != u)));
 				v.push(("Path==String", *r == us));
+				v.push(("Path==String (through !=)", !(*r != us)));
 				v.extend(extra_str_eq(kind, t, u));
 			}
 			Kind::Segment => {
@@ -124,22 +139,27 @@ pub fn c14_str_eq(kind: Kind, t: &[u8], u: &str) -> Guard<Vec<(&'static str, boo
 			Kind::Authority => {
 				let r = Authority::new(s).ok().unwrap();
 				v.push(("Authority==&str", *r == u));
+				v.push(("Authority==&str (through !=)", !(*r != u)));
 			}
 			Kind::Host => {
 				let r = Host::new(s).ok().unwrap();
 				v.push(("Host==&str", *r == u));
+				v.push(("Host==&str (through !=)", !(*r != u)));
 			}
 			Kind::UserInfo => {
 				let r = UserInfo::new(s).ok().unwrap();
 				v.push(("UserInfo==&str", *r == u));
+				v.push(("UserInfo==&str (through !=)", !(*r != u)));
 			}
 			Kind::Query => {
 				let r = Query::new(s).ok().unwrap();
 				v.push(("Query==&str", *r == u));
+				v.push(("Query==&str (through !=)", !(*r != u)));
 			}
 			Kind::Fragment => {
 				let r = Fragment::new(s).ok().unwrap();
 				v.push(("Fragment==&str", *r == u));
+				v.push(("Fragment==&str (through !=)", !(*r != u)));
 			}
 			_ => {}
 		}
